@@ -132,6 +132,7 @@ func checkC12(c *Ctx) {
 	c.checkBasicAuth()
 	c.checkCacheKeyAgreement()
 	c.checkTokenDecodeOffsets()
+	c.checkSerialNotNarrowed()
 }
 
 func (c *Ctx) checkTokenAuth() {
